@@ -12,7 +12,7 @@ From Gen Require Import M_base M_Angle M_Epoch M_Interpolation M_Coordinates M_E
 From Proofs.C07 Require C07_defs C07_lib C07_angle C07_series C07_corr C07_mono C07_dec
   C07_mono_code C07_mono_earth.
 From Proofs.C08 Require Import C08_base C08_obliquity C08_sun.
-From Proofs.C08 Require C08_nut_main C08_nut_bound.
+From Proofs.C08 Require C08_nut_main C08_nut_bound C08_wide.
 Import ListNotations.
 Open Scope R_scope.
 
@@ -68,7 +68,7 @@ Proof.
   split; [apply AngleSpec.pos360_range; apply AngleSpec.red360_range|]. split; assumption.
 Qed.
 
-Theorem earth_apparent_shape jde : Rabs (C08_nut_main.Tc jde) <= 20 ->
+Theorem earth_apparent_shape jde : Rabs (C08_nut_main.Tc jde) <= 40 ->
   exists L B R,
     Earth_apparent_heliocentric_position Rops (VObj cEpoch [VFloat jde]) (VBool true) =
       VTuple [ang L; ang B; VFloat R] /\
@@ -100,14 +100,14 @@ Proof.
   { apply AngleSpec.red360_small. apply Rabs_def1; lra. }
   pose proof (C07_corr.geometric_fk5 jde lon (b * (180 / PI)) r _ _ _ Hv Hlat) as G.
   rewrite Hred2 in G.
-  destruct (C08_nut_bound.nutation_longitude_clause jde HT) as (dpsi & Hn & _ & _).
+  destruct (C08_wide.nutation_longitude_shape40 jde HT) as (dpsi & Hn & _ & _).
   pose proof (C07_corr.apparent_nutation jde _ _ r (dpsi / 3600) _ _ _ G Hn ltac:(lra)) as A.
   eexists _, _, r. split; [rewrite earth_apparent_wrapper; exact A|].
   split; [apply C07_corr.corrected_range|]. split; [apply Rabs_le; lra | exact Hr].
 Qed.
 
-(* the reflection theorem, apparent variant with nutation, hypothesis discharged (years 0 .. 4000) *)
-Theorem sun_apparent_unconditional jde : Rabs (C08_nut_main.Tc jde) <= 20 ->
+(* the reflection theorem, apparent variant with nutation, hypothesis discharged (|T| <= 40 centuries: years -2000 .. 6000) *)
+Theorem sun_apparent_unconditional jde : Rabs (C08_nut_main.Tc jde) <= 40 ->
   exists L B R,
     Earth_apparent_heliocentric_position Rops (VObj cEpoch [VFloat jde]) (VBool true) =
       VTuple [ang L; ang B; VFloat R] /\
